@@ -674,12 +674,12 @@ type c16ReqCtx struct {
 	headers map[string]string
 }
 
-func (c *c16ReqCtx) Request() *heimdall.Request          { return nil }
-func (c *c16ReqCtx) AddHeaderForUpstream(n, v string)    { c.headers[n] = v }
-func (c *c16ReqCtx) AddCookieForUpstream(_, _ string)    {}
-func (c *c16ReqCtx) AppContext() context.Context         { return c.ctx }
-func (c *c16ReqCtx) SetPipelineError(_ error)            {}
-func (c *c16ReqCtx) Outputs() map[string]any             { return map[string]any{} }
+func (c *c16ReqCtx) Request() *heimdall.Request       { return nil }
+func (c *c16ReqCtx) AddHeaderForUpstream(n, v string) { c.headers[n] = v }
+func (c *c16ReqCtx) AddCookieForUpstream(_, _ string) {}
+func (c *c16ReqCtx) AppContext() context.Context      { return c.ctx }
+func (c *c16ReqCtx) SetPipelineError(_ error)         {}
+func (c *c16ReqCtx) Outputs() map[string]any          { return map[string]any{} }
 
 type c16Sys struct {
 	pki  *c16PKI
